@@ -55,7 +55,7 @@ pub fn member_role(w: &World, member: &str) -> String {
         }
         let rel = |i: usize| event_class(w, member, i).rsplit('.').next().unwrap().to_string();
         match &p.act {
-            ActKind::Remove(x) if x == member => {
+            ActKind::Remove(x) if x.split('+').any(|o| o == member) => {
                 parts.insert(format!("removed-by-{}", rel(i)));
             }
             ActKind::Add(x) if x == member => {
